@@ -169,6 +169,7 @@ fn eval_union_expr(
         if let model::Value::Node(mut nodes) = value {
             let mut set = HashSet::new();
             nodes.retain(|v| set.insert(v.order()));
+            nodes.sort_by_cached_key(|v| v.order());
 
             return Ok(nodes.as_value());
         } else {
@@ -192,6 +193,7 @@ fn eval_union_expr(
 
     let mut set = HashSet::new();
     nodes.retain(|v| set.insert(v.order()));
+    nodes.sort_by_cached_key(|v| v.order());
 
     Ok(nodes.as_value())
 }
